@@ -262,6 +262,57 @@ def strata_search(ctx, n):
     return ev, viol
 
 
+def boundary_search(ctx, n):
+    """exact boundary cases of the direction test through the public API: lattice points (pairs exactly perpendicular / parallel to
+    axis-aligned directions, distances exactly on bin edges, offsets from the search line exactly equal to the bandwidth) with the
+    tolerance exactly pi/2 (a perpendicular pair has angle acos(0) = pi/2, NOT < pi/2), just below, just above, far above (every pair in
+    every direction) and tiny (parallel pairs only); band widths None / exactly the lattice spacing / in between.  Only axis-aligned
+    directions are used, so that every quantity of the test is exact in doubles and the strict comparisons are decided identically by
+    any correct implementation."""
+    import gstools as gs
+    rng = np.random.RandomState(ctx.seed + 8181)
+    viol, ev = [], 0
+    half = np.pi / 2
+    tols = [half, float(np.nextafter(half, 0.0)), float(np.nextafter(half, 4.0)), half + 0.3, 3.2, 1e-9, np.pi / 4 + 0.1]
+    for t in range(n):
+        dim = int(rng.randint(2, 4))
+        P = int(rng.randint(6, 16))
+        pos = rng.randint(0, 4, size=(dim, P)).astype(float)
+        est = str(rng.choice(["matheron", "cressie"]))
+        e = est[0]
+        bins = np.concatenate([[float(rng.choice([0.0, 0.5, 1.0]))], np.cumsum(rng.choice([1.0, 1.5], size=int(rng.randint(2, 5)))) + 1.0])
+        D = int(rng.randint(1, dim + 1))
+        d = np.eye(dim)[rng.permutation(dim)[:D]] * rng.choice([1.0, -1.0, 2.0], size=(D, 1))
+        tol = float(tols[t % len(tols)])
+        bw = [None, None, 1.0, 1.5, 2.0][int(rng.randint(5))]
+        F = int(rng.randint(1, 3))
+        f = rng.randint(-8, 9, size=(F, P)) / 4.0
+        if rng.rand() < 0.3:
+            f[rng.rand(F, P) < 0.15] = np.nan
+        case = dict(stratum="boundary", pos=pos.tolist(), field=f.tolist(), bins=bins.tolist(), estimator=est, direction=d.tolist(),
+                    angles_tol=tol, bandwidth=bw)
+        try:
+            _, g, c = gs.vario_estimate(pos, f if F > 1 else f[0], bins, estimator=est, direction=d, angles_tol=tol, bandwidth=bw,
+                                        return_counts=True)
+            dn = d / np.linalg.norm(d, axis=1)[:, None]
+            g, c = np.atleast_2d(g), np.atleast_2d(c)
+            rg, rc = brute.directional(f, bins, pos, dn, tol, -1.0 if bw is None else bw, e)
+            ev += 1
+            if not (close(g, rg) and np.array_equal(c, rc)):
+                zg, zc = brute.directional(f, bins, pos, dn, tol, -1.0 if bw is None else bw, e, zero_first_only=True)
+                if close(g, zg) and np.array_equal(c, zc):
+                    viol.append({"key": "api:directional:zero-length-pairs-first-direction-only",
+                                 "what": "zero-length pairs credited to the first separated direction only", "case": case})
+                else:
+                    viol.append({"key": "api:directional:boundary",
+                                 "what": "directional vario_estimate differs from pair enumeration at an exact boundary of the direction test "
+                                         "(angle tolerance pi/2 vs perpendicular pairs, offsets equal to the bandwidth, distances on bin edges)",
+                                 "case": case, "got": [g.tolist(), c.tolist()], "want": [rg.tolist(), rc.tolist()]})
+        except Exception as ex:
+            viol.append({"key": "api:directional:boundary:exception", "what": f"{type(ex).__name__}: {ex}", "case": case})
+    return ev, viol
+
+
 def model_search(ctx, n):
     """the generated Lean definitions (current .pyx source) against definitional enumeration"""
     rng = np.random.RandomState(ctx.seed + 77)
@@ -325,8 +376,10 @@ def search(ctx, deep=False):
     ev0, v0 = directed(ctx)
     ev1, v1 = api_search(ctx, n)
     ev3, v3 = strata_search(ctx, max(36, n // 2))
+    ev4, v4 = boundary_search(ctx, max(28, n // 3))
+    ev3, v3 = ev3 + ev4, v3 + v4
     ev1, v1 = ev0 + ev1 + ev3, v0 + v3 + v1
     ev2, v2 = model_search(ctx, max(10, n // 4))
     return {"evaluations": ev1 + ev2, "violations": (v1 + v2)[:8],
             "summary": f"{ev1} calls of vario_estimate / vario_estimate_axis (incl. {ev3} in the targeted strata: overlapping direction cones with random signs, directions given as ISO angles incl. several 3-D directions at once, "
-                       f"stacks of masked fields with different masks) and {ev2} runs of the Lean translation of estimator.pyx against brute-force pair enumeration"}
+                       f"stacks of masked fields with different masks, exact boundaries of the direction test on lattices) and {ev2} runs of the Lean translation of estimator.pyx against brute-force pair enumeration"}
